@@ -1,6 +1,7 @@
 """C01 — engine property check (see DESIGN.md section 6, C01)."""
 from engcommon import *          # noqa: F401,F403
 import engcommon
+engcommon.TRIM_FAMILIES = True     # left recursion through trims of every mode
 
 ID = "C01"
 HARNESS = "c01_harness"
